@@ -64,6 +64,7 @@ type cnDriver struct {
 	lastRh      []*rhView        // round state of the runtimes at the end of the previous block
 	rhQuiet     map[string]int64 // runtime -> round for which no further commitments are generated (left to the round timer)
 	vaults      bool             // vault transactions are generated
+	deregSoon   []string         // entities that were just handed a runtime and will try to deregister
 	evidenceAt  int64            // height at which consensus evidence is included (grown-committee pattern)
 	txSweep     bool             // all single structural body mutations of the block's transactions at CheckTx / EstimateGas
 	sweepInputs int
@@ -577,6 +578,24 @@ func (d *cnDriver) step() error {
 				sp.Validity = "badpct"
 			}
 		}
+		if exists && e == owner && validity == "ok" && d.rng.Intn(2) == 0 && n.cfg.Validators > 1 {
+			// the owner hands the runtime over to another entity (which may then try to deregister)
+			sp.Entity = fmt.Sprintf("E%d", d.rng.Intn(n.cfg.Validators))
+			if ents, ok := d.lastReg["entities"].(map[string]any); ok {
+				var us []string
+				for k := range ents {
+					if strings.HasPrefix(k, "U") {
+						us = append(us, k)
+					}
+				}
+				sort.Strings(us)
+				if len(us) > 0 && d.rng.Intn(3) > 0 {
+					sp.Entity = us[d.rng.Intn(len(us))] // a user-run entity without nodes: nothing but the runtime keeps it from deregistering
+					d.deregSoon = append(d.deregSoon, sp.Entity)
+				}
+			}
+			sp.Gov = "entity"
+		}
 		if d.rng.Intn(3) > 0 {
 			// incoming message queue: small enough to fill up within a scenario (the executor commitments of the scenarios consume nothing)
 			sp.InMsgs = fmt.Sprintf("%d:%d", []int{0, 1, 1, 2, 2, 3}[d.rng.Intn(6)], []int{0, 0, 1, 3}[d.rng.Intn(4)])
@@ -751,6 +770,14 @@ func (d *cnDriver) step() error {
 		case x < 7: // a user account runs an entity
 			u := n.users[d.rng.Intn(len(n.users))].name
 			ename, signer, list = u, u, nil
+			if d.acctField(u, "ab") < 100 && d.acctField(u, "g") > 150 && d.rng.Intn(3) > 0 {
+				// ... and first puts up the stake an entity needs (a self-delegation)
+				esp := &cnTxSpec{Kind: "escrow", Signer: u, To: u, Amount: 120, Nonce: uint64(d.acctField(u, "n")) + nonceBump[u], Gas: 2000, Validity: "ok"}
+				if raw, err := n.buildTx(esp, d.rng); err == nil {
+					nonceBump[u]++
+					metas = append(metas, cnTxMeta{esp, raw})
+				}
+			}
 			if d.rng.Intn(2) == 0 {
 				list = []string{fmt.Sprintf("N%d", d.rng.Intn(len(n.vals)))}
 			}
@@ -784,6 +811,16 @@ func (d *cnDriver) step() error {
 					metas = append(metas, cnTxMeta{sp2, raw})
 				}
 			}
+		}
+	}
+	if len(d.deregSoon) > 0 && d.rng.Intn(2) == 0 {
+		// an entity that has just been handed a runtime tries to deregister
+		who := d.deregSoon[0]
+		d.deregSoon = d.deregSoon[1:]
+		sp := &cnTxSpec{Kind: "deregentity", Signer: who, Nonce: uint64(d.acctField(who, "n")) + nonceBump[who], Gas: 5000, Validity: "hasnodes"}
+		if raw, err := n.buildTx(sp, d.rng); err == nil {
+			nonceBump[who]++
+			metas = append(metas, cnTxMeta{sp, raw})
 		}
 	}
 	if d.rng.Intn(5) == 0 {
@@ -1219,6 +1256,9 @@ func (d *cnDriver) observe(b *cnBlock, metas []cnTxMeta) cnBlockResult {
 				}
 				if sp.Kind == "regruntime" && resp.Code == 0 {
 					d.rtOwner[sp.To] = sp.Signer
+					if sp.Entity != "" {
+						d.rtOwner[sp.To] = sp.Entity
+					}
 					var dl [][2]int64
 					for _, dv := range strings.Split(sp.Deps, ";") {
 						var v, from int64
